@@ -13,6 +13,7 @@ import (
 	"path/filepath"
 	"sync"
 	"sync/atomic"
+	"time"
 
 	"github.com/containerd/nri/pkg/adaptation"
 	"github.com/containerd/nri/pkg/api"
@@ -40,6 +41,11 @@ func Quiet() {
 		if os.Getenv("VERIFH_LOG") == "" {
 			nrilog.Set(silent{})
 		}
+		// the checks are about locking, not about time-outs: on a loaded machine the
+		// repository's 2 s request time-out would drop a starved (correct) plugin and turn
+		// load into a false alarm. The harness's own deadlines (30 s per case) stay in force.
+		adaptation.SetPluginRequestTimeout(2 * time.Minute)
+		adaptation.SetPluginRegistrationTimeout(2 * time.Minute)
 	})
 }
 
